@@ -117,6 +117,9 @@ pub struct SCfg {
     pub mode: u8,
     /// merge function: concatenation, or join with ',' (shows where empty values are)
     pub join: bool,
+    /// merge function "keep the first value" (takes precedence over `join`): a collapsing merge, so
+    /// that spilled chunks stay tiny however much is inserted
+    pub first: bool,
     /// the caller retries an insert that failed (used with a transient chunk-creator failure)
     pub retry: bool,
 }
@@ -131,7 +134,7 @@ impl SCfg {
     pub fn json(&self) -> Value {
         json!({"ev": "SCfg", "teff": self.teff(), "hook": self.hook.is_some(),
                "init": self.hook.map(|h| h.1).unwrap_or(131072), "realloc": self.realloc, "maxc": self.maxc,
-               "stable": self.stable, "mf": if self.join { "join" } else { "concat" }, "threads": self.threads, "creator": self.creator, "mode": self.mode,
+               "stable": self.stable, "mf": if self.first { "first" } else if self.join { "join" } else { "concat" }, "threads": self.threads, "creator": self.creator, "mode": self.mode,
                "chunk": self.chunk.json()})
     }
 }
@@ -227,7 +230,7 @@ fn run_with<CC: ChunkCreator>(
 where
     CC::Chunk: 'static,
 {
-    let rec = Recorder { mf: if cfg.join { Mf::Join } else { Mf::Concat }, calls: RefCell::new(Vec::new()) };
+    let rec = Recorder { mf: if cfg.first { Mf::First } else if cfg.join { Mf::Join } else { Mf::Concat }, calls: RefCell::new(Vec::new()) };
     let mut b = Sorter::builder(&rec);
     b.allow_realloc(cfg.realloc).max_nb_chunks(cfg.maxc);
     match cfg.hook {
@@ -345,7 +348,7 @@ pub fn run_logged(out: &mut TraceOut, cfg: &SCfg, inserts: &[Entry], ids: &[u32]
                 .iter()
                 .map(|(k, v)| {
                     let kid = dict.strs.binary_search(k).map(|i| i as i64 + 1).unwrap_or(0);
-                    json!({"k": kid, "v": if cfg.join { parse_joined(v) } else { parse_tokens(v) }})
+                    json!({"k": kid, "v": if cfg.join && !cfg.first { parse_joined(v) } else { parse_tokens(v) }})
                 })
                 .collect();
             out.ev(json!({"ev": "SOut", "res": "ok", "mode": cfg.mode, "entries": named}));
@@ -400,6 +403,7 @@ pub fn random_scfg(r: &mut R, small_scale: bool) -> SCfg {
         creator: *pick(r, &[0u8, 0, 0, 1, 2]),
         mode: r.gen_range(0..3),
         join: r.gen_bool(0.4),
+        first: false,
         retry: false,
     }
 }
@@ -409,6 +413,7 @@ pub fn scn_sorter(out: &mut TraceOut, r: &mut R, idx: u64, heavy: bool) {
     let mut cfg = random_scfg(r, true);
     let (t, _) = cfg.hook.unwrap();
     let uni = key_universe(r);
+    cfg.first = idx % 6 == 4;
     let n = match idx % 4 {
         0 => r.gen_range(0..12),
         1 => r.gen_range(10..120),
@@ -510,7 +515,17 @@ pub fn scn_spill(out: &mut TraceOut, r: &mut R, _idx: u64, heavy: bool) {
     }
     let max_e = (t / 4).saturating_sub(16);
     let uni: Vec<Vec<u8>> = key_universe(r).into_iter().filter(|k| k.len() <= max_e / 2).collect();
-    let uni = if uni.is_empty() { vec![vec![]] } else { uni };
+    let mut uni = if uni.is_empty() { vec![vec![]] } else { uni };
+    if _idx % 5 == 1 {
+        // one or two keys inserted over and over under a collapsing merge function: every spilled
+        // chunk is tiny compared with the volume inserted (the chunk limit must hold all the same)
+        cfg.first = true;
+        cfg.maxc = *pick(r, &[1usize, 2, 2, 3]);
+        uni.truncate(*pick(r, &[1usize, 1, 2]));
+        if uni[0].len() > 8 {
+            uni[0] = vec![b'k'];
+        }
+    }
     let spills = if heavy { r.gen_range(50..400) } else { r.gen_range(5..60) };
     let volume = spills * t;
     let mut inserts = Vec::new();
